@@ -200,7 +200,7 @@ func checkC20(ctx *pbt.Ctx, c c20Case) error {
 				return fmt.Errorf("%s: the process died: %s", desc, lastLines(out.Stderr, 12))
 			}
 			if out.Hung {
-				return fmt.Errorf("%s: Execute did not return within %v: %s", desc, bqlHang, lastLines(out.Stderr, 12))
+				return fmt.Errorf("%s: Execute did not return within %v nor, run again in a fresh worker, within %v: %s", desc, bqlHang, bqlHangConfirm, lastLines(out.Stderr, 12))
 			}
 			res := out.Resp.Results[0]
 			if !res.FaultFired {
